@@ -32,7 +32,7 @@ EXPLANATION = ('Invariants: every component has the dataset shape; exactly ndim 
                'message carries the dataset and the component it is about. Rejected calls must leave the invariants intact.')
 REAL = ['glue.core.data.Data mutation API', 'glue.core.component_id', 'glue.core.message', 'glue.core.hub', 'glue.core.registry', 'glue.core.coordinates']
 STUB = ['recording HubListener', 'uuid and identity-hash streams']
-ASSUMPTIONS = ['messages are compared only when no delay window is open', 'generator guard of the open finding excludes update_values_from_data with a different number of dimensions', 'sampling, not proof']
+ASSUMPTIONS = ['messages are compared only when no delay window is open', 'sampling, not proof']
 PROBES = ['rejected_add_wrong_shape', 'rejected_reorder', 'rejected_update_wrong_shape', 'partial_update_then_reject', 'cascade_remove', 'coords_replaced',
           'coords_removed', 'update_from_new_shape', 'update_from_label_mismatch', 'ops_in_delay_window', 'outside_collection', 'rename', 'update_id', 'joined_collection_later', 'identifier_of_rejected_add_reused', 'flipflop_reorder', 'flipflop_remove_add', 'flipflop_update_id', 'update_id_of_coordinate']
 
